@@ -269,8 +269,22 @@ pub enum Extra<T: Sc> {
     },
     /// direct model call: Ok(bits, shape) or Err(debug string)
     ModelCall(Result<(Vec<u64>, (usize, usize)), String>),
+    /// tap mode: the optimizer ran on a tap around the problem
+    Tapped(Box<TapObs<T>>),
     /// the op could not be applied (e.g. no problem left after a panic)
     Skipped,
+}
+
+#[derive(Clone, Debug)]
+pub struct TapObs<T: Sc> {
+    pub events: Vec<crate::prob::TapEvent>,
+    pub termination: String,
+    pub termination_successful: bool,
+    pub evaluations: usize,
+    pub objective: T,
+    /// model-seam events of the minimisation proper: log[ev_from..ev_to]
+    pub ev_from: usize,
+    pub ev_to: usize,
 }
 
 #[derive(Clone, Debug)]
@@ -294,6 +308,10 @@ pub struct Runner<T: Sc, F: Factory<T>> {
     pub build: Result<(), String>,
     pub build_panic: Option<String>,
     pub build_events: usize,
+    /// state right after build()
+    pub build_snap: Option<Snap>,
+    /// run Fit ops as `minimize` on a tap instead of `LevMarSolver::fit`
+    pub tap: bool,
     pub steps: Vec<StepObs<T>>,
 }
 
@@ -319,7 +337,12 @@ impl<T: Sc, F: Factory<T>> Runner<T, F> {
             Err(p) => (None, Err("panic".into()), Some(p)),
         };
         let build_events = ctl.log_len();
+        let build_snap = subject
+            .as_ref()
+            .and_then(|p| guarded(|| snap(p)).ok());
         Runner {
+            build_snap,
+            tap: false,
             world,
             ctl,
             subject,
@@ -417,6 +440,32 @@ impl<T: Sc, F: Factory<T>> Runner<T, F> {
                     Ok(q) => {
                         self.subject = Some(q);
                         extra = Extra::Converted { before };
+                    }
+                    Err(e) => panic = Some(e),
+                }
+            }
+            Op::Fit | Op::FitWithStatistics if self.tap => {
+                let p = self.subject.take().unwrap();
+                let cfg = self.world.opt.clone();
+                let rec = std::rc::Rc::new(std::cell::RefCell::new(vec![]));
+                let rec2 = rec.clone();
+                let ctl2 = self.ctl.clone();
+                let from = self.ctl.log_len();
+                let r = guarded(move || p.minimize_tapped(&cfg, rec2, Some(ctl2)));
+                let to = self.ctl.log_len();
+                match r {
+                    Ok((q, termination, ok, evaluations, objective)) => {
+                        self.subject = Some(q.into_sequential());
+                        let events = rec.borrow().clone();
+                        extra = Extra::Tapped(Box::new(TapObs {
+                            events,
+                            termination,
+                            termination_successful: ok,
+                            evaluations,
+                            objective,
+                            ev_from: from,
+                            ev_to: to,
+                        }));
                     }
                     Err(e) => panic = Some(e),
                 }
